@@ -56,11 +56,12 @@ def scenarios(P):
             'probes': [('a', ['m']), ('a', ['d'])],
         },
         's2-dir-edit': {
-            'old': {'policy.yaml': {'a': 'role:m'},
+            # 'k' lives in the (unedited) main file and is allowed throughout
+            'old': {'policy.yaml': {'a': 'role:m', 'k': '@'},
                     'd1/o.yaml': {'a': 'role:d'}},
             'new': {'d1/o.yaml': {'a': 'role:d2'}},
             'defaults': [], 'conf': {},
-            'probes': [('a', ['m']), ('a', ['d']), ('a', ['d2'])],
+            'probes': [('k', []), ('a', ['m']), ('a', ['d']), ('a', ['d2'])],
         },
         's3-defaults-permissive-default': {
             'old': {'policy.yaml': {'default': '@', 'x': 'role:x1'}},
@@ -141,7 +142,7 @@ TIERS = {
                   bound=2, reduced=True, opcode=False,
                   probes={'s1-main-edit-dir-override': [2, 1],
                           's1b-main-edit-dir-touched': [1],
-                          's2-dir-edit': [1],
+                          's2-dir-edit': [2, 1],
                           's3-defaults-permissive-default': [2],
                           's4-deprecated-defaults': [2],
                           's6-two-dirs-no-edit': [1],
